@@ -336,7 +336,19 @@ def d2_one_to_one(ctx):
         detail = src(st[0])
     ctx.check(oks, fi, st[0] if st else lp, detail, "the match is stored for the right event of tsa with the right event of tsb (through the unmatched-index lists, axes not swapped)",
               f"`{detail}` does not store <unmatched b>[row] at <unmatched a>[column] of the distance matrix: pairs are swapped or taken from the wrong list", key="store")
-    blank = [n for n in ast.walk(lp) if isinstance(n, ast.Assign) and isinstance(n.targets[0], ast.Subscript) and loc_name(n.targets[0].value) == mat and "nan" in src(n.value)]
+    blank = [n for n in ast.walk(lp) if isinstance(n, ast.Assign) and isinstance(n.targets[0], ast.Subscript) and loc_name(n.targets[0].value) == mat and ("nan" in src(n.value) or "inf" in src(n.value))]
+    # the value that takes an entry out of the candidate set: NaN (skipped by nanargmin) or +inf (never the arg-min while a finite candidate is left; the loop must stop when the minimum is inf)
+    sentinel = "inf" if blank and all("inf" in src(n.value) for n in blank) else "nan"
+    amin = [a for a in ast.walk(un[0].value) if isinstance(a, ast.Call) and call_name(a) in ("nanargmin", "argmin")]
+    if sentinel == "inf":
+        stops = [n for n in ast.walk(lp) if isinstance(n, ast.If) and any(isinstance(x, ast.Break) for x in n.body) and "inf" in src(n.test) and mat in src(n.test)]
+        ok_s = bool(amin) and call_name(amin[0]) == "argmin" and bool(stops)
+        ctx.check(ok_s, fi, un[0], un[0], "candidates are removed by setting them to +inf: plain arg-min, and the loop stops when the smallest remaining distance is inf",
+                  "with +inf as the removed-candidate value the loop must use argmin and stop when the minimum is inf (otherwise removed pairs are matched again / the loop never ends)",
+                  key="sentinel", name_free=True)
+    else:
+        ctx.check(bool(amin) and call_name(amin[0]) == "nanargmin", fi, un[0], un[0], "candidates are removed by setting them to NaN and skipped by nanargmin",
+                  "candidates removed with NaN are not skipped: argmin returns a NaN entry", key="sentinel", name_free=True)
     got = set()
     for n in blank:
         sl = n.targets[0].slice
@@ -362,8 +374,14 @@ def d2_one_to_one(ctx):
     ctx.check(oka and okb, fi, am[0].stmt if am else fi.node, "candidate lists", "candidates are the events of both series that are still unmatched",
               "the candidate lists of the second pass are not (events of tsa without a match, events of tsb not yet used)", key="candidates")
     thr = [n for n in walk_function(fi.node) if isinstance(n, ast.Assign) and isinstance(n.targets[0], ast.Subscript) and loc_name(n.targets[0].value) == mat
-           and find(n.targets[0].slice, ast.Compare) and "nan" in src(n.value) and not any(x is n for x in ast.walk(lp))]
-    okt = bool(thr) and any(isinstance(c.ops[0], ast.Gt) and loc_name(c.comparators[0]) == "tbin" for c in find(thr[0].targets[0].slice, ast.Compare))
+           and find(n.targets[0].slice, ast.Compare) and (sentinel in src(n.value)) and not any(x is n for x in ast.walk(lp))]
+    okt = False
+    if thr:
+        sl_ = thr[0].targets[0].slice
+        neg_ = isinstance(sl_, ast.UnaryOp) and isinstance(sl_.op, (ast.Invert, ast.Not))
+        for c in find(sl_, ast.Compare):
+            if loc_name(c.comparators[0]) == "tbin" and loc_name(c.left) == mat:
+                okt = okt or (isinstance(c.ops[0], ast.Gt) and not neg_) or (isinstance(c.ops[0], ast.LtE) and neg_)
     ctx.check(okt, fi, thr[0] if thr else fi.node, thr[0] if thr else "dt[dt > tbin] = nan", "pairs farther apart than one bin are never candidates", "candidates farther apart than one bin are not excluded", key="threshold")
 
 
